@@ -1,5 +1,6 @@
 """Loading of the MIR facts dumped by cfbsa-driver, plus pretty printing."""
 import json
+import re
 
 
 def fmt_place(p):
@@ -226,9 +227,37 @@ def alias_renamed(d, known_functions, known_sigs, known_prints=None):
     last = lambda p: p.rsplit("::", 1)[-1]
     ren, taken = {}, set()
     pairs = []
+    perm_of = {}
+
+    def _permuted(g, f):
+        """The parameter permutation (new position -> old position) when g's signature is f's with the parameters
+        in another order - all parameter types distinct, so that the order is recoverable - else None."""
+        m_ = re.match(r"^\((.*)\) -> (.*)$", known_sigs[f])
+        if not m_:
+            return None
+        old_in = _split_sig(m_.group(1))
+        new_in = [i.get("s", "?") for i in sigs[g].get("inputs", [])]
+        if sigs[g].get("output", {}).get("s", "?") != m_.group(2) or len(old_in) != len(new_in) or old_in == new_in:
+            return None
+        if sorted(old_in) != sorted(new_in) or len(set(old_in)) != len(old_in):
+            return None
+        return [old_in.index(t_) for t_ in new_in]
     for f in sorted(missing):
         same_sig = [g for g in new if _sig_text(sigs[g]) == known_sigs[f]]
+        if not same_sig:
+            # the receiver's mutability relaxed or tightened (`&mut self` that only reads became `&self`)
+            relax = lambda t_: re.sub(r"^\(&mut ", "(&", t_)
+            same_sig = [g for g in new if relax(_sig_text(sigs[g])) == relax(known_sigs[f]) and _sig_text(sigs[g]) != known_sigs[f]]
+        if not same_sig:
+            for g in new:
+                pm_ = _permuted(g, f)
+                if pm_ is not None and (parent(g) == parent(f) or (known_prints and f in known_prints and _similar(body_fingerprint(bodies[g]), known_prints[f]) >= 0.8)):
+                    same_sig.append(g)
+                    perm_of[(g, f)] = pm_
         cands = [g for g in same_sig if parent(g) == parent(f)] or [g for g in same_sig if last(g) == last(f)]
+        if not cands and known_prints and f in known_prints:
+            # moved to another module AND renamed: the same signature and (nearly) the same calls in the body
+            cands = [g for g in same_sig if _similar(body_fingerprint(bodies[g]), known_prints[f]) >= 0.8]
         for g in cands:
             sim = _similar(body_fingerprint(bodies[g]), (known_prints or {}).get(f, [])) if known_prints and f in known_prints else 0.0
             pairs.append((sim, f, g, len(cands)))
@@ -246,6 +275,30 @@ def alias_renamed(d, known_functions, known_sigs, known_prints=None):
         done.add(f)
     if not ren:
         return {}
+    # a renamed function whose parameters were also reordered: put them back in the reference order, in its body (the
+    # parameter locals) and at every call site (the argument list)
+    for g, f in ren.items():
+        pm_ = perm_of.get((g, f))
+        if not pm_:
+            continue
+        b = bodies[g]
+        # new local (1 + i) becomes old local (1 + pm_[i])
+        remap = {1 + i: 1 + pm_[i] for i in range(len(pm_)) if pm_[i] != i}
+        _remap_locals(b, remap)
+        locs = list(b["locals"])
+        for i in range(len(pm_)):
+            b["locals"][1 + pm_[i]] = locs[1 + i]
+        sg = sigs[g]
+        ins = list(sg.get("inputs", []))
+        for i in range(len(pm_)):
+            sg["inputs"][pm_[i]] = ins[i]
+        for b2 in d["bodies"]:
+            for blk in b2["blocks"]:
+                t = blk["term"]
+                if t["t"] in ("call", "tailcall") and (t.get("callee") == g or t.get("resolved") == g) and len(t["args"]) == len(pm_):
+                    args = list(t["args"])
+                    for i in range(len(pm_)):
+                        t["args"][pm_[i]] = args[i]
 
     def fix_path(p):
         if p in ren:
@@ -275,6 +328,40 @@ def alias_renamed(d, known_functions, known_sigs, known_prints=None):
     for s_ in d["sigs"]:
         s_["path"] = fix_path(s_["path"])
     return ren
+
+
+
+def _split_sig(s_):
+    out, depth, cur = [], 0, ""
+    for ch in s_:
+        if ch in "(<[":
+            depth += 1
+        elif ch in ")>]":
+            depth -= 1
+        if ch == "," and depth == 0:
+            out.append(cur.strip())
+            cur = ""
+        else:
+            cur += ch
+    if cur.strip():
+        out.append(cur.strip())
+    return out
+
+
+def _remap_locals(body, remap):
+    """Renumber locals of one body (places, operands, debug info) according to remap (a permutation)."""
+    def walk(x):
+        if isinstance(x, dict):
+            if "local" in x and isinstance(x["local"], int) and x["local"] in remap and ("proj" in x or len(x) <= 3):
+                x["local"] = remap[x["local"]]
+            for k_, v_ in x.items():
+                if k_ != "locals":
+                    walk(v_)
+        elif isinstance(x, list):
+            for v_ in x:
+                walk(v_)
+    walk(body["blocks"])
+    walk(body.get("debug", []))
 
 
 def alias_renamed_fields(d, known_fields):
@@ -535,7 +622,7 @@ class Facts:
         bodies = {b["path"]: b for b in self.d["bodies"]}
         if known_functions:
             import inline
-            inline.ADTS = {a["path"]: [v["name"] for v in a["variants"]] for a in self.d["adts"] if a["is_enum"] and all(not v.get("fields") for v in a["variants"])}
+            inline.ADTS = {a["path"]: [v["name"] for v in a["variants"]] for a in self.d["adts"] if a["is_enum"]}
             self.inlined, self.removed = inline.inline_new_helpers(bodies, set(known_functions))
         self.fns = {}
         for p_, b in bodies.items():
